@@ -103,6 +103,7 @@ def runDed (c : Case) : Res :=
     let outS := (c.ob "out").getD []
     if outS.head? == some "panic" then { status := "ORACLE", detail := s!"dedup variant {variant} panicked" } else
     let got := natsOf outS
+    -- variant 20: the survivors of DedupPolicy::Epsilon read back from a built triangulation (sorted)
     let exact := variant == 0 || variant == 1 || variant == 10
     let eps2 := Q.ofDy epsD * Q.ofDy epsD
     let near : DPt → DPt → Bool := if exact then sameCoords else withinEps eps2
